@@ -702,7 +702,7 @@ func c47ChainID(r *hx.Rng) (string, string) {
 	case 1:
 		return "testchain", "no-revision"
 	case 2:
-		return r.Str("abc-", 1, 8) + "-" + r.Str(digits, 1, 19), "digits-le-19"
+		return r.Str("abc-", 1, 8) + "-" + r.Str(digits, 1, 24), "digits-le-24"
 	case 3:
 		return r.Str("abc", 1, 3) + "-0" + r.Str(digits, 0, 3), "leading-zero"
 	case 4:
@@ -714,7 +714,7 @@ func c47ChainID(r *hx.Rng) (string, string) {
 	case 7:
 		return "", "empty"
 	case 8:
-		return "a-18446744073709551615", "max-u64"
+		return "a-1844674407370955161" + r.Pick([]string{"5", "6", "7", "50"}), "around-max-u64"
 	case 9:
 		return r.Str("abc", 1, 3) + "-" + r.Str("123456789", 1, 2) + r.Pick([]string{"x", " ", "\n", "-"}), "trailing-junk"
 	case 10:
@@ -889,10 +889,15 @@ func famC47(r *hx.Rng, o *hx.Out) {
 		}
 		o.Emit("c47_setrev", []any{hx.HS(s), hx.U(n)}, []any{c, res}, tag)
 	}
-	// witness of NoPanicBaseFacts.parse_chain_id_refuted, replayed on the real code
+	// regression corpus: the former ParseChainID panic witnesses (fixed by d71d2e9: now revision 0)
 	for _, s := range []string{"a-18446744073709551616", "cosmoshub-99999999999999999999", "x-1" + strings.Repeat("0", 30)} {
-		c := c47Run(func() error { clienttypes.ParseChainID(s); return nil })
-		o.Emit("c47_chainid", hx.HS(s), []any{c, nil}, "witness-revision-overflow")
+		var rev uint64
+		c := c47Run(func() error { rev = clienttypes.ParseChainID(s); return nil })
+		var res any
+		if c == "ok" {
+			res = hx.U(rev)
+		}
+		o.Emit("c47_chainid", hx.HS(s), []any{c, res}, "regression-revision-overflow")
 	}
 
 	// ---- client identifiers
